@@ -51,7 +51,7 @@ import (
 
 func main() {
 	ev.Main("C04", "fault_enumeration",
-		"files (single-zip, multi-zip via forced max zip size, periodic content with repeated chunk refs, same content under two names, just under/over the 512 KiB threshold) are written with perkeep's file writer and uploaded through blobserver.Receive in seeded orders (schema blob first/middle/last, chunks shuffled, duplicate uploads) into blobpacked over inject-wrapped memory small/large/meta (some cases: localdisk small/large + leveldb meta); also several distinct files per store (unrelated, or one extending the other so that they share chunks; sequential or chunks-first), upload orders whose last schema upload misses a blob (never sent / sent later / schema only first), client removes inside the history (chunk before the pack with or without re-upload, packed blobs after the pack + re-upload), and files of 17-35 MiB under the production 16 MiB zip limit (crash points: the pack's writes only); every lower-layer call index k of upload+packing is a crash point (freeze), every distinct (durable state, acked set) is restarted under none/fast/full recovery and with meta wiped, audited against the reference map, then removes (a few loose and packed blobs, or all / all but one blob of one zip) + restart + re-upload + restart; a case is distinct per (history, crash state, recovery)",
+		"files (single-zip, multi-zip via forced max zip size, periodic content with repeated chunk refs, same content under two names, just under/over the 512 KiB threshold) are written with perkeep's file writer and uploaded through blobserver.Receive in seeded orders (schema blob first/middle/last, chunks shuffled, duplicate uploads) into blobpacked over inject-wrapped memory small/large/meta (some cases: localdisk small/large + leveldb meta); also several distinct files per store (unrelated, or one extending the other so that they share chunks; sequential or chunks-first), upload orders whose last schema upload misses a blob (never sent / sent later / schema only first), client removes inside the history (chunk before the pack with or without re-upload, packed blobs after the pack + re-upload), and files of 17-35 MiB under the production 16 MiB zip limit (crash points: the pack's writes only); every lower-layer call index k of upload+packing is a crash point (freeze), every distinct (durable state, acked set) is restarted under none/fast/full recovery and with meta wiped, audited against the reference map, then removes (a few loose and packed blobs, or all / all but one blob of one zip) + restart + re-upload + restart; whole files served before a restart must be served after it; the durable states reached by restart-without-recovery + re-upload (in the same-content cases also without the removes in between: the second name packs the interrupted content again, large then holds two zips for one whole-file part) are restarted under fast/full recovery and with meta wiped; hand-written file schemas with a part shorter than the blob it names or one blob named with two part sizes (single zip and forced multi-zip); the same content under 2-3 names, or two unrelated files, with the file schema blobs uploaded at the same time and the packs held at their zip stores until all got there (no crash points, final state through every recovery); a case is distinct per (history, crash state, recovery)",
 		run)
 }
 
@@ -629,7 +629,7 @@ func (c *caseCtx) runA() {
 		if !wholeDone[f0.WholeRef] {
 			r.Note("file_class", "pack-without-whole-row")
 		}
-		if truncations(w, c.logA, opStart) > 0 {
+		if w.Spec.Interleave != "parallel-triggers" && truncations(w, c.logA, opStart) > 0 {
 			r.Note("file_class", "truncate-retry")
 		}
 		if w.Spec.Removes != "" {
@@ -1417,9 +1417,9 @@ func genCasesR4(r *ev.Run) []caseSpec {
 	// quick: one short part in a file that fits one zip; one in the second zip of two (the first
 	// zip is stored before the packer meets the short part); one blob with two part sizes
 	add("short-part", 0, "schema-last", fileSpec{Name: "short.bin", Size: 600*kib + rng.Intn(300*kib), Content: "parts:" + shapes[rng.Intn(4)]})
-	add("short-part", 0, "schema-last", fileSpec{Name: "short-second-zip.bin", Size: 900*kib + rng.Intn(300*kib), Content: "parts:" + []string{"short-last", "short-twice"}[rng.Intn(2)]})
+	add("short-part", 0, "schema-last", fileSpec{Name: "short-second-zip.bin", Size: 900*kib + rng.Intn(300*kib), Content: "parts:short-last"})
 	out[len(out)-1].MaxZipPerMille = 560
-	add("short-part", 0, orders[rng.Intn(3)], fileSpec{Name: "two-sizes.bin", Size: 600*kib + rng.Intn(300*kib), Content: "parts:" + shapes[5+rng.Intn(2)]})
+	add("short-part", 0, orders[rng.Intn(3)], fileSpec{Name: "two-sizes.bin", Size: 600*kib + rng.Intn(300*kib), Content: "parts:two-sizes-short-first"})
 	// the same content under two names, the two file schema blobs uploaded at the same time:
 	// both packs run (neither sees the other's final whole-file row), large gets two zips for
 	// one (whole file, part); no crash points, the final state goes through every recovery
@@ -1478,6 +1478,8 @@ func run(r *ev.Run) {
 	r.Assume("blobpacked.RemoveBlobs issues its lower-layer calls concurrently: a crash point inside a client remove is the k-th lower call of that replay, which need not be the same call as in run A; live audits are made when the remove has returned, not from inside it")
 	r.Assume("files of tens of MiB (production zip limit): crash points are the writes of the pack only, live audits after those writes only, the range-fetch grid covers a seeded sample of 48 blobs, and only the completely packed state goes through the remove and re-restart stages")
 	r.Assume("crash points with identical durable state and acknowledged set (e.g. consecutive reads) are restarted once")
+	r.Assume("derived states (restart without recovery + removes + re-upload of a crash state) are deduplicated by durable state and a seed-determined selection per case (those with duplicate zips first) is restarted under recovery; whole files that OpenWholeRef served completely before a restart must be served after it")
+	r.Assume("histories with concurrent uploads have no replayable lower-call order: no crash points, their final state is restarted in every recovery variant; the 20 s bound on the zip-store rendezvous only gives up the schedule")
 
 	specs := append(genCases(r), genCasesR4(r)...)
 	var cases []*caseCtx
@@ -1638,6 +1640,16 @@ func run(r *ev.Run) {
 		r.Require("upload_order", "interleave:chunks-first")
 	}
 	r.Require("zip_shape", "manifest-with-repeated-chunk", "part>0")
+	// round 4 families
+	r.Require("derived_state", "duplicate-zips", "other")
+	r.Require("derived_recovery_with_duplicate_zips", "fast", "full", "zips-alone-fast", "zips-alone-full")
+	r.Require("short_part_file", "stays-loose", "first-zips-only")
+	r.Require("part_shape", "two-sizes-short-first")
+	r.Require("parallel_packs", "overlapped-at-zip-store")
+	r.Require("file_class", "duplicate-zips-by-concurrent-packs")
+	if r.Thorough() {
+		r.Require("part_shape", "short-mid", "short-first", "short-last", "short-by-one", "short-twice", "two-sizes-full-first")
+	}
 }
 
 // ------------------------------------------------------------------ truncate-and-retry
